@@ -211,4 +211,27 @@ theorem compositeMass_byNumber (mode : Mode) (cs : List (Comp α)) (hne : cs ≠
   rw [x_eq mode cs c]
   field_simp
 
+
+/-! ### the `avg` row and the `components=` selection -/
+
+theorem select_all {β : Type} (l : List β) : select (List.replicate l.length true) l = l := by
+  induction l with
+  | nil => rfl
+  | cons a t ih => simp [List.replicate_succ, select, ih]
+
+theorem avgWeighted_eq (col ws : List α) (hl : col.length = ws.length) (hw : ∀ w ∈ ws, w ≠ 0) :
+    avgWeighted col ws = col.sum / ws.sum := by
+  unfold avgWeighted
+  congr 1
+  induction col generalizing ws with
+  | nil => cases ws <;> simp_all
+  | cons c t ih =>
+    cases ws with
+    | nil => simp at hl
+    | cons w ws =>
+      have hw0 : w ≠ 0 := hw w (by simp)
+      simp only [List.zipWith_cons_cons, List.sum_cons]
+      rw [ih ws (by simpa using hl) (fun x hx => hw x (by simp [hx]))]
+      field_simp
+
 end SciVerif.C11
